@@ -506,8 +506,10 @@ func transferSizes(w, r *gmtls.Conn, total int, seed int, sizes []int) (int, err
 // every other Read call end in an expired read deadline: a temporary error after which the connection stays usable
 type dripConn struct {
 	net.Conn
-	on    int32
-	calls int
+	on     int32 // 1: pieces and expired deadlines; 2: the rest of the stream is collected and its last bytes come WITH io.EOF
+	calls  int
+	rest   []byte
+	loaded bool
 }
 
 type dripTimeout struct{}
@@ -519,6 +521,19 @@ func (dripTimeout) Temporary() bool { return true }
 func (d *dripConn) Read(p []byte) (int, error) {
 	if atomic.LoadInt32(&d.on) == 0 {
 		return d.Conn.Read(p)
+	}
+	if atomic.LoadInt32(&d.on) == 2 {
+		// (an io.Reader may return its last bytes together with io.EOF - buffered tunnels and multiplexers do)
+		if !d.loaded {
+			d.rest, _ = io.ReadAll(d.Conn)
+			d.loaded = true
+		}
+		n := copy(p, d.rest)
+		d.rest = d.rest[n:]
+		if len(d.rest) == 0 {
+			return n, io.EOF
+		}
+		return n, nil
 	}
 	d.calls++
 	if d.calls%2 == 0 {
@@ -681,6 +696,9 @@ func runC06(c *c06Case) (c06Obs, error) {
 				if r2 := runHandshake(cli2, srv2, 15*time.Second); r2.cliErr != nil || r2.srvErr != nil || r2.timedOut {
 					e3 = fmt.Errorf("second connection of the same configuration: client %v, server %v", r2.cliErr, r2.srvErr)
 				} else if e3 = dripTransfer(srv2, cli2, drip, []int{1, 1070, 20000, 5}); e3 == nil {
+					if !c.Dyn {
+						atomic.StoreInt32(&drip.on, 2) // the end of the stream arrives as (last bytes, io.EOF) in one Read
+					}
 					e3 = tailThenClose(srv2, cli2, 700+len(sizes))
 				}
 				cli2.Close()
